@@ -13,6 +13,10 @@ From CM Require Properties.C16.
 Theorem C07_whole_run_lift : C07_lift_statement run_tables_v.
 Proof. exact C07_lift. Qed.
 Print Assumptions C07_whole_run_lift.
+(** the statement above is the law, not the vacuous branch: on the tables read from the current source every pipeline
+    returns early when the transformer reports no change (if a pipeline loses that guard this example stops compiling) *)
+Example C07_lift_not_vacuous : nochange_guarded run_tables_v = true.
+Proof. reflexivity. Qed.
 
 (** use-generator is idempotent on every expression when calls are never entered (pinned form, first repair) or when nested
     rewrites are kept AND the generator is built from the updated comprehension ([generator_stable]); with `return updated_node`
